@@ -25,6 +25,31 @@ theorem getCPUPlans_total (info : NodeInfo) (origin : CpuMap) (B maxShare : Int)
   obtain ⟨ps, h, _⟩ := getCPUPlans_spec info origin B hB maxShare req order hord hwf.2 hwf.1
   exact ⟨ps, h⟩
 
+/-- companion for nodes whose memory usage exceeds capacity (such states pass `Validate`, which never
+    looks at node memory, e.g. after the node's memory capacity was lowered) and more generally
+    whenever less than one request's memory is free: no theorem above assumes `usage.mem ≤ capacity.mem`
+    (`getCPUPlans_total` covers these states: no crash), and the result is the empty plan list. -/
+theorem overused_memory_no_plans (info : NodeInfo) (origin : CpuMap) (B maxShare : Int) (req : Req)
+    (order : List String) (ps : List CpuPlan) (hm : 0 < req.mem) (hover : info.cap.mem - info.use.mem < req.mem)
+    (h : getCPUPlans info origin B maxShare req order = .ok ps) : ps = [] := by
+  have hf := getCPUPlans_fit_memory info origin B maxShare req order ps h
+  unfold fitMemory at hf
+  simp only [Bool.or_eq_true, beq_iff_eq, decide_eq_true_eq] at hf
+  have hav : info.available.mem = info.cap.mem - info.use.mem := rfl
+  rcases hf with (h0 | hle) | hfit
+  · exact List.eq_nil_of_length_eq_zero h0
+  · omega
+  · rcases Nat.eq_zero_or_pos ps.length with h0 | hpos
+    · exact List.eq_nil_of_length_eq_zero h0
+    · exfalso
+      have h1 : (1 : Int) ≤ ps.length := by omega
+      have : 1 * req.mem ≤ (ps.length : Int) * req.mem := Int.mul_le_mul_of_nonneg_right h1 (by omega)
+      omega
+
+/-- the over-used witness of the fixed corpus: capacity 4096, used 6144, request 1.5 cpu / 1024 -/
+example : getCPUPlans { cap := { cpuMap := [("0",100),("1",100)], mem := 4096 }, use := { cpuMap := [("0",0),("1",0)], mem := 6144 } } [("0",100)] 100 (-1)
+    { bind := true, cpuNum := 1500, mem := 1024 } [] = .ok [] := by decide
+
 /-- host level: `host.getCPUPlans` returns for every request and max-share on a well-formed host -/
 theorem hostPlans_total (B maxShare : Int) (aff : Bool) (h : Host) (pieces : Int) (hB : 1 ≤ B) (hh : HostOK B h) :
     ∃ plans, hostPlans B maxShare aff h pieces = .ok plans := by
